@@ -379,3 +379,41 @@ Proof.
   - apply elems_wf; [|rewrite app_length in Hb; lia].
     unfold si_elems. repeat (apply Forall_app; split); try (apply oel_types; unfold two64; lia). repeat constructor.
 Qed.
+
+(* ---------------------------------------------------------------- sigCoverEnd of the Interest name, in nat *)
+Fixpoint digest_pos (n : name) (pos dflt : nat) : nat :=
+  match n with
+  | [] => dflt
+  | c :: r => digest_pos r (pos + length (comp_enc c)) (if (ctyp c =? 2)%N then pos else dflt)
+  end.
+Lemma scan_digest_nat n : forall pos dflt, scan_digest n (Z.of_nat pos) (Z.of_nat dflt) = Z.of_nat (digest_pos n pos dflt).
+Proof.
+  induction n as [|c n IH]; intros pos dflt; [reflexivity|]. cbn [scan_digest digest_pos].
+  rewrite <- Nat2Z.inj_add. destruct (ctyp c =? 2)%N; apply IH.
+Qed.
+Lemma digest_pos_bounds n : forall pos dflt lo, lo <= pos -> lo <= dflt <= pos + length (name_inner n) ->
+  lo <= digest_pos n pos dflt <= pos + length (name_inner n).
+Proof.
+  induction n as [|c n IH]; intros pos dflt lo H1 H2; [simpl in *; lia|].
+  unfold name_inner in *. cbn [digest_pos map concat] in *. rewrite app_length in *.
+  replace (pos + (length (comp_enc c) + length (concat (map comp_enc n)))) with (pos + length (comp_enc c) + length (concat (map comp_enc n))) by lia.
+  apply IH; [lia|]. destruct (ctyp c =? 2)%N; lia.
+Qed.
+Lemma digest_pos_shift n : forall a x y, digest_pos n (a + x) (a + y) = a + digest_pos n x y.
+Proof.
+  induction n as [|c n IH]; intros a x y; [reflexivity|]. cbn [digest_pos].
+  rewrite <- Nat.add_assoc. destruct (ctyp c =? 2)%N; apply IH.
+Qed.
+(* offset, inside the encoded components, where the part of the name covered by an Interest signature ends *)
+Definition doff (n : name) : nat := digest_pos n 0 (length (name_inner n)).
+Lemma doff_le n : doff n <= length (name_inner n).
+Proof. unfold doff. pose proof (digest_pos_bounds n 0 (length (name_inner n)) 0). lia. Qed.
+Lemma doff_last pre v : doff (pre ++ [mkc 2 v]) = length (name_inner pre).
+Proof.
+  unfold doff. generalize (length (name_inner (pre ++ [mkc 2 v]))) as dflt.
+  assert (H : forall pos dflt, digest_pos (pre ++ [mkc 2 v]) pos dflt = pos + length (name_inner pre)).
+  { induction pre as [|c pre IH]; intros pos dflt.
+    - simpl. lia.
+    - cbn [app digest_pos]. rewrite IH. unfold name_inner. cbn [map concat]. rewrite app_length. lia. }
+  intros dflt. rewrite H. reflexivity.
+Qed.
